@@ -1078,12 +1078,35 @@ class Executor:
                 yield s, v
                 continue
             s.trace.append(("await",))
+            self.havoc_closure_mutated(s)
             if isinstance(v, PyVal) and isinstance(v.obj, tuple) and v.obj and v.obj[0] == "coro":
                 _, name, decl, info = v.obj
                 s.trace.append(("call", name, info))
                 yield from opaque_result(self, name, s, decl.get("returns", ANY), decl)
                 continue
             yield s, v
+
+    def havoc_closure_mutated(self, s):
+        """A suspension point: tasks created from the function's own nested coroutines may run here.  Containers that a nested
+        `def` of this function mutates through a captured name (results_list.append(...) in a worker closure) hold unknown
+        contents afterwards (sound over-approximation of asyncio's cooperative scheduling: such writes happen only at awaits)."""
+        from .stmts import mutated_exprs, assigned_names, _havoc_refs
+        names = getattr(self, "_closure_mutated", None)
+        if names is None:
+            names = set()
+            fa = getattr(self, "func_ast", None)
+            for n in (ast.walk(fa) if fa is not None else ()):
+                if n is fa or not isinstance(n, (ast.FunctionDef, ast.AsyncFunctionDef)):
+                    continue
+                local = assigned_names(n.body) | {a.arg for a in n.args.args + n.args.kwonlyargs}
+                for kind, expr in mutated_exprs(n.body):
+                    if kind != "attr" and isinstance(expr, ast.Name) and expr.id not in local:
+                        names.add(expr.id)
+            self._closure_mutated = names
+        refs = [s.env[n] for n in sorted(names) if isinstance(s.env.get(n), Val) and strip_opt(s.env[n].ty)[0] in ("seq", "dict", "set")]
+        if refs:
+            _havoc_refs(s, refs)
+            self.assumptions.add("containers mutated by the function's own nested coroutines are havocked at every await (writes from tasks happen only at suspension points)")
 
     def ev_Starred(self, e, st):
         raise Unsupported("starred expression")
